@@ -39,9 +39,12 @@ if not ok:
 # a private worktree of /repo with a private copy of /verif (VERIF_REPO), leaving /repo and /verif alone
 res = {}
 if os.environ.get("KM_PRIVATE"):
-    rc, vs = "/tmp/rck", "/tmp/vsk/verif"
+    # KM_SRC: the copy of /verif to run (default /verif itself; a stable snapshot while /verif is being edited)
+    tag = f"{prop}-{n}"
+    rc, vs = f"/tmp/rck-{tag}", f"/tmp/vsk-{tag}/verif"
+    src = os.environ.get("KM_SRC", "/verif").rstrip("/")
     subprocess.run(f"git -C /repo worktree remove --force {rc} 2>/dev/null; git -C /repo worktree add --detach {rc} HEAD >/dev/null 2>&1", shell=True)
-    subprocess.run(f"mkdir -p /tmp/vsk && rsync -a --delete /verif/ {vs}/", shell=True, check=True)
+    subprocess.run(f"mkdir -p /tmp/vsk-{tag} && rsync -a --delete {src}/ {vs}/", shell=True, check=True)
     subprocess.run(f"git -C {rc} apply {patch}", shell=True, check=True)
     try:
         for c in checks:
@@ -50,6 +53,7 @@ if os.environ.get("KM_PRIVATE"):
             res[c] = {"exit": p.returncode, "violation_lines": [l for l in lines if l.startswith("VIOLATION")][:3], "summary": lines[-1:] }
     finally:
         subprocess.run(f"git -C /repo worktree remove --force {rc}", shell=True)
+        subprocess.run(f"mkdir -p /tmp/km-replays/{tag}; cp {vs}/replays/*.json /tmp/km-replays/{tag}/ 2>/dev/null | head -0; rm -rf /tmp/vsk-{tag}", shell=True)
 else:
     assert subprocess.run("git -C /repo status --porcelain -- src", shell=True, capture_output=True, text=True).stdout.strip() == ""
     subprocess.run(f"git -C /repo apply {patch}", shell=True, check=True)
